@@ -189,3 +189,5 @@ def run(ctx):
     r2(ctx, table)
     r3(ctx)
     r4(ctx)
+    from .c02 import r5 as rebuilders_keep_the_marker
+    rebuilders_keep_the_marker(ctx, rule="C06.R5")
